@@ -1,12 +1,12 @@
-\* deviation SymEntry = "plain": FilterComplete must be refuted (self-test; the counterexample is a prediction replayed on the code)
+\* deviation AnyEntry = "named": FilterComplete must be refuted (self-test; the counterexample is a prediction replayed on the code)
 SPECIFICATION SpecMC
 CONSTANTS
   AllTypes <- MCAllTypes
   SymTab <- MCSymTab
   AliasOf <- MCAliasOf
   NotEntry = "all"
-  AnyEntry = "lists"
-  SymEntry = "plain"
+  AnyEntry = "named"
+  SymEntry = "index"
   UseMode = "alias"
   CalleeMode = "any"
 INVARIANTS FilterComplete EntrySound SymsSound RootCallsSound
